@@ -65,11 +65,13 @@ type c17Report struct {
 		Link  bool   `json:"link_header"`
 		Hex   string `json:"hex"`
 	} `json:"frames"`
-	Exit     int    `json:"exit"`
-	TimedOut bool   `json:"timed_out"`
-	Stdout   string `json:"stdout"`
-	Stderr   string `json:"stderr"`
-	WallMs   int64  `json:"wall_ms"`
+	Exit       int    `json:"exit"`
+	TimedOut   bool   `json:"timed_out"`
+	Stdout     string `json:"stdout"`
+	Stderr     string `json:"stderr"`
+	WallMs     int64  `json:"wall_ms"`
+	SigintAtMs int64  `json:"sigint_at_ms"`
+	KilledBy   string `json:"killed_by"`
 }
 
 func (c c17Case) args() []string {
